@@ -142,6 +142,11 @@ def build_kmodel(force=False):
             reqs += [x for x in m.group(1).split() if x not in reqs]
         for m in re.finditer(r"Separate\s+Extraction\s+(.*?)\.(?=\s|$)", text, re.S):
             items += [x for x in m.group(1).split() if x not in items]
+    # every required module must be compiled against the current Gen/ files (a changed Gen file makes stale .vo inconsistent)
+    targets = ["theories/%s.vo" % r.replace(".", "/") for r in reqs]
+    rc, out = run_cmd(["make", "-j", str(min(16, os.cpu_count() or 4))] + targets, cwd=COQ, timeout=3000)
+    if rc:
+        return False, "building the models to extract failed:\n" + out[-2000:]
     with open(os.path.join(ext, "ExtractAll.v"), "w") as f:
         f.write("From Coq Require Import Extraction ExtrOcamlBasic ExtrOcamlNativeString.\n"
                 "From KV Require Import %s.\nExtraction Blacklist String List Bool.\nSeparate Extraction\n  %s.\n"
